@@ -224,6 +224,16 @@ def gen_body(rng, depth, size, nobj_hint):
     n = rng.randint(0, size)
     for _ in range(n):
         r = rng.random()
+        if depth > 0 and rng.random() < 0.07:
+            # cross-context motif: create here, wrap/apply in an inner context, wrap/apply again here
+            # (exercises flattening removing grand-operands, shared bases of shallow copies)
+            k1 = rng.choice(["ctrl", "prod", "sprod", "adj", "pow", "expval"])
+            inner = [["wrap", k1, -1, -2]] + ([["apply", -1]] if rng.random() < 0.4 else [])
+            body += [["new", rng.choice([0, 0, 1])], ["new", rng.choice([0, 1])],
+                     [rng.choice(["with", "with", "stop"]), inner]]
+            body.append(rng.choice([["wrap", rng.choice(["ctrl", "prod", "sprod", "adj"]), -1, -2],
+                                    ["apply", -1], ["apply", -2]]))
+            continue
         if r < 0.30:
             body.append(["new", rng.choice([0, 0, 1, 1, 2])])
         elif r < 0.58:
